@@ -172,6 +172,9 @@ var valueMenu = []string{
 	"closed", "square", "inside", "hide", "visible", "scroll", "ellipsis", "balance", "all", "fill", "scale-down", "from-image",
 	"pixelated", "isolate", "embed", "discard", "keep", "line", "inline", "fixed", "ahem", "jis78", "no-common-ligatures",
 	"tabular-nums", "historical-forms", "legacy",
+	// keyword alternatives of the length-valued properties (the whole list, at every position,
+	// is lengthKeywords in the absolutisation block)
+	"content", "max-content", "fit-content", "thin", "medium", "large", "xx-small", "text-top", "text-bottom", "portrait", "letter",
 	// initial values of many properties: last among the keywords, so that the first accepted
 	// value (the parent's explicit value) differs from the initial value
 	"none", "normal", "auto",
